@@ -1,6 +1,6 @@
 (* C01 — hash_tree_root equals SSZ-spec merkleization for every type and value.
    Property theorems only.  H is any pair hash. *)
-Require Import RM.Base RM.Gindex RM.Tree RM.Types RM.Spec RM.ModelViews RM.MerkleProofs RM.PackProofs RM.CtorProofs RM.ModelCodec RM.DeserProofs RM.SoundProofs.
+Require Import RM.Base RM.Gindex RM.Tree RM.Types RM.Spec RM.ModelViews RM.MerkleProofs RM.PackProofs RM.CtorProofs RM.ModelCodec RM.DeserProofs RM.SoundProofs RM.ReprProofs.
 
 (* the value built by the constructor of ANY well-formed type (arbitrary nesting, any length / limit
    below 2^64) from ANY well-formed value has the specification's hash-tree-root *)
@@ -54,7 +54,12 @@ Proof.
   intros H t bs n Hty Hd. destruct (decode_bytes_canonical H t bs n (fun _ => None) Hty Hd) as (v & Hw & Es & _ & Hr & _). eauto.
 Qed.
 
+(* any representation of a value (constructed, decoded, mutated: see C04) has the spec root *)
+Theorem C01_any_repr_root : forall H t v n, wf_ty t = true -> wf t v = true -> Repr H t v n -> root H n = htr H t v.
+Proof. exact Repr_root. Qed.
+
 Print Assumptions C01_constructor.
+Print Assumptions C01_any_repr_root.
 Print Assumptions C01_decode_route.
 Print Assumptions C01_decode_any.
 Print Assumptions C01_fill_contents.
